@@ -1,18 +1,28 @@
 #!/usr/bin/env python3
-"""Prints the markdown table of seeded changes (DESIGN §15) from /verif/seeded/*/meta.json and the check logs."""
+"""Prints the markdown tables of seeded changes (DESIGN §15) from /verif/seeded/*/meta.json and the check logs.
+/verif/seeded/judgements.json holds the hand-written remarks for changes that no check reports."""
 import json,glob,os,re
-rows=[]
+J={}
+try: J=json.load(open('/verif/seeded/judgements.json'))
+except Exception: pass
+rows=[];ben=[]
 for d in sorted(glob.glob('/verif/seeded/*/')):
     id=os.path.basename(d.rstrip('/'))
     try: m=json.load(open(d+'meta.json'))
     except Exception: continue
-    notes=m.get('needs_to_manifest','')
+    notes=m.get('needs_to_manifest','') or m.get('notes','')
     title=''
     for l in notes.splitlines():
         l=l.strip().lstrip('#').strip()
         if l: title=l; break
-    title=re.sub(r'\s+',' ',title)[:150]
+    title=re.sub(r'\s+',' ',title)[:150].replace('|','/')
     conf=m.get('confirmed',{})
+    if str(m.get('kind','')).startswith('benign'):
+        ok=conf.get('applies')=='ok' and conf.get('builds_and_existing_suite_with_change')=='ok'
+        bad=[f"{c['property']}: exit {c['exit']}" for c in m.get('checks_run',[]) if c['exit']!=0]
+        n=len(m.get('checks_run',[]))
+        ben.append((id,title,'yes' if ok else 'NO',f"{n-len(bad)} of {n} checks exit 0"+(': '+'; '.join(bad) if bad else ''),J.get(id,'')))
+        continue
     ok=conf.get('applies')=='ok' and conf.get('existing_suite_with_change')=='ok'
     demo=f"{conf.get('demo_with_change','?')}/{conf.get('demo_without_change','?')}"
     res=[]
@@ -23,8 +33,12 @@ for d in sorted(glob.glob('/verif/seeded/*/')):
             mm=re.search(r'^  (C\d+/\w+) ',open(log,errors='replace').read(),re.M)
             if mm: rule=mm.group(1)
         res.append(f"{p}: {'**caught** ('+rule+')' if c['exit']==1 else ('missed' if c['exit']==0 else 'exit '+str(c['exit']))}")
-    rows.append((id,title,'yes' if ok else 'NO',demo,'; '.join(res)))
-print('| seeded change | what it is (from the author\'s notes) | compiles + suite passes | demo with/without | quick checks run with the change applied |')
-print('|---|---|---|---|---|')
+    rows.append((id,title,'yes' if ok else 'NO',demo,'; '.join(res),J.get(id,'')))
+print('| seeded change | what it is (from the author\'s notes) | compiles + suite passes | demo with/without | quick checks run with the change applied | remark |')
+print('|---|---|---|---|---|---|')
 for r in rows: print('| '+' | '.join(r)+' |')
 caught=sum(1 for r in rows if '**caught**' in r[4]); print(f'\n{caught} of {len(rows)} seeded changes are caught by at least one quick check.')
+if ben:
+    print('\n| change that keeps every property | what it is | compiles + suite passes | quick checks with the change applied | remark |')
+    print('|---|---|---|---|---|')
+    for r in ben: print('| '+' | '.join(r)+' |')
